@@ -565,6 +565,28 @@ func (r *renderer) item(it *Item, facts []RecFact) (string, error) {
 	case KTTL:
 		return r.kwCase("$TTL") + r.blanks() + r.ttlText(it.DirTTL) + r.trailer(false), nil
 	case KInclude:
+		if it.ViaGenerate {
+			// "$GENERATE n-m $$INCLUDE file [origin]": the model's spelling of the origin is
+			// kept (plain labels; no escapes inside a $GENERATE line)
+			times := int64(1)
+			if it.GenTimes > 1 {
+				times = int64(it.GenTimes)
+			}
+			rng := fmt.Sprintf("%d-%d", it.GenAt, it.GenAt+times-1)
+			if r.p(30) {
+				rng += "/1"
+			}
+			dollar := "$$"
+			if r.p(50) {
+				dollar = `\$`
+			}
+			s := r.kwCase("$GENERATE") + r.blanks() + rng + r.blanks() + dollar + r.kwCase("INCLUDE") + r.blanks() + it.File
+			if it.HasIncOrigin {
+				s += r.blanks() + SpellMName(it.IncOrigin)
+			}
+			r.use("include-via-generate")
+			return s + r.trailer(false), nil
+		}
 		s := r.kwCase("$INCLUDE") + r.blanks() + it.File
 		if it.HasIncOrigin {
 			n := r.pickName(it.IncOrigin, facts, func(f *RecFact) wm.Name { return f.AbsOrigin }, false)
